@@ -24,7 +24,10 @@ def run(c):
               "bytes, length-header bombs (2^16..2^32-1 elements at every collection site of every format) and ~35 packets aimed at each "
               "rarely taken error branch; (5%) a TCP connection to the real receiver over loopback: 2-7 frames with body sizes 0, 1, small, "
               "MaxTCPFrameBody-3..MaxTCPFrameBody (valid batches padded to the exact size), MaxTCPFrameBody+1.., a truncated tail, written in one piece / "
-              "split at header and body boundaries / in random pieces. After every batch 3 packets without metrics (empty maps, no metrics key, "
+              "split at header and body boundaries / in random pieces. (20% of cases) a SEQUENCE of 5-9 different batches through one reused parser+batch, formats interleaved (TL/msgpack/pb/hand-pb/JSON, "
+              "same format repeated half of the time), large fully populated packets first, then packets with zero scalars, empty strings/arrays, omitted "
+              "fields and histogram buckets with zero value or count; each decode is diffed against the model's decode of that packet alone and against a "
+              "fresh parser (stale-state-across-packets). After every batch 3 packets without metrics (empty maps, no metrics key, "
               "empty TL/JSON/pb) go through the same batch object, and every packet is also decoded by a fresh parser (stale-state oracle). Every packet goes through the real parser.parse in a child process (RLIMIT_AS 3 GiB, 60 s watchdog) "
               "into one reused batch per case. non-trivial = batch with >=1 metric having tags and an optional field decoded in all formats / "
               "a damaged packet rejected inside a decoder / bombs; distinct by op-sequence hash")
